@@ -12,7 +12,7 @@ ENTRIES = ["compress2", "compress2", "compress2", "compress2", "simple", "cctx",
 
 def make_cases(ctx, rng):
     quick = ctx.quick
-    n_small, n_med, n_big = (170, 60, 12) if quick else (1500, 500, 120)
+    n_small, n_med, n_big = (170, 50, 6) if quick else (1500, 500, 120)
     cases = []
 
     def add(kind, size, entry=None, params=None):
@@ -43,6 +43,12 @@ def make_cases(ctx, rng):
     for lvl in (16, 17, 19, 22, 3, 13):
         add("rep3", 30000, "compress2", {"level": lvl})
     add("rep3", 60000, "compress2", {"level": 19, "blockSplitter": 1, "minMatch": 3})
+    # literals-section header thresholds (1 KiB / 16 KiB of Huffman-compressed literals, no sequences)
+    for sz in (1023, 1024, 1025, 16383, 16384, 16385):
+        add("debruijn", sz, "compress2", {"level": 1, "minMatch": 5, "literalMode": 1, "windowLog": 17})
+    # a split block whose raw partition carries sequences: repeat-offset history across raw partitions
+    for lvl in (18, 19, 22):
+        add("splitraw", 3 * 131072, "compress2", {"level": lvl})
     # lengths above 65535 (long-length escape) through the block splitter
     for lvl, sz in ((16, 131072), (19, 131072), (19, 200000), (22, 300000), (3, 131072)):
         add("longlen", sz, "compress2", {"level": lvl, "checksum": 1, "blockSplitter": 1})
@@ -82,7 +88,14 @@ def run_cases(ctx, cd, cases, strict_window=False):
         ctx.violation(dict(kind="harness-crash", detail=derrs[:2]), what="zv_codec crashed while decompressing: %r" % (derrs[0],))
     mres = cd.model(rcases)
     # A-tie: rebuild every emitted frame with the serialiser model A (coq/Codec/Encode.v) from what R saw; must be byte-identical
-    ares = cd.model([(i, (fl + "," if fl else "") + "asm", d, f) for i, fl, d, f in rcases])
+    big_budget = [8 if ctx.quick else 10 ** 9]
+
+    def want_asm(f):
+        if len(f) <= 40000:
+            return True
+        big_budget[0] -= 1
+        return big_budget[0] >= 0
+    ares = cd.model([(i, (fl + "," if fl else "") + "asm", d, f) for i, fl, d, f in rcases if want_asm(f)])
     hist = {}
     for c in cases:
         if "frame" not in c:
@@ -102,8 +115,10 @@ def run_cases(ctx, cd, cases, strict_window=False):
             ctx.violation(dict(rep, decoder="R", result="content differs"),
                           what="reference decoder R decodes the compressor's output to different bytes (entry %s, params %s, |x|=%d)" % (c["entry"], c["params"], len(x)))
             continue
-        a = ares.get(c["id"], ("ERR", "missing", -1))
-        if a[0] != "OK" or a[2] != "ASM=same":
+        a = ares.get(c["id"])
+        if a is None:
+            pass
+        elif a[0] != "OK" or a[2] != "ASM=same":
             ctx.violation(dict(rep, correspondence="A (serialiser model Codec/Encode.v: frame header, block framing, raw/RLE blocks, epilogue) vs the emitted frame",
                                theorems=["C01_frame_header_round_trip", "C01_frame_assembly_round_trip", "C01_store_compressor_lossless"], result=str(a)[:200]),
                           what="serialiser model A does not reproduce the frame the compressor emitted (%s); the round trip of this frame itself succeeded" % (a[2] if a[0] == "OK" else "R/A error %s" % (a[1],)),
